@@ -75,6 +75,7 @@ func extRunThreads(fr *frame, args []value) value {
 		if len(enabled) > 1 {
 			co.step++
 			v := ps.newInput(fmt.Sprintf("sched.%d", co.step), 64)
+			fr.i.ex.noteInput("sched.N", "scheduler choice among the enabled threads at every yield point")
 			ps.assume(mkCmp("bvult", v, mkBV(64, uint64(len(enabled)))))
 			idx = int(ps.concretize(v))
 		}
